@@ -38,15 +38,28 @@
 /* selectors, sizes, paths                                              */
 /* ------------------------------------------------------------------ */
 enum { S_QUICK, S_QUICK_R, S_QUICK_M, S_HEAP, S_DEFAULT, S_OOR99, S_OORNEG3, S_OORBIG,
+       S_SWEPT /* value set per sort from sweep_value(): "any out-of-range value" */,
        S_INLINE /* cstl_vector_sort(): inline, plain cstl_swap, vector path only */, NSEL };
-static const long selval[NSEL] = {
+static long selval[NSEL] = {
     CSTL_SORT_ALGORITHM_QUICK, CSTL_SORT_ALGORITHM_QUICK_R, CSTL_SORT_ALGORITHM_QUICK_M,
-    CSTL_SORT_ALGORITHM_HEAP, CSTL_SORT_ALGORITHM_DEFAULT, 99, -3, 2897234,
+    CSTL_SORT_ALGORITHM_HEAP, CSTL_SORT_ALGORITHM_DEFAULT, 99, -3, 2897234, 4,
     CSTL_SORT_ALGORITHM_DEFAULT
 };
 static const char *const selname[NSEL] = {
-    "quick", "quick_r", "quick_m", "heap", "default", "oor99", "oor-3", "oor2897234", "inline-default"
+    "quick", "quick_r", "quick_m", "heap", "default", "oor99", "oor-3", "oor2897234", "swept", "inline-default"
 };
+/* the selector sweep: every value in [-300, 700) (the named ones, the first values past the last named one,
+ * everything around 2^7 and 2^8) and +-2^k, +-2^k+-1 for k = 9..31 (the selector is a 32-bit enum) */
+#define NSWEEP_LIN 1000
+#define NSWEEP (NSWEEP_LIN + 23 * 6)
+static long sweep_value(uint32_t i)
+{
+    long k, v;
+    if (i < NSWEEP_LIN) return (long)i - 300;
+    i -= NSWEEP_LIN;
+    k = 9 + i / 6; v = 1L << k;
+    switch (i % 6) { case 0: return v; case 1: return v - 1; case 2: return v + 1; case 3: return -v; case 4: return -v + 1; default: return -v - 1; }
+}
 #define NSIZES 8
 static const int SIZES[NSIZES] = { 1, 2, 4, 8, 3, 5, 16, 24 };
 enum { P_ARRAY, P_VECTOR };
@@ -463,7 +476,7 @@ static void run_array(struct bench *b, int selidx, const uint32_t *probes, int n
     if (b->path == P_VECTOR && b->arr) memset(b->arr + bytes, 0xc7, (b->cap - n) * size);
 
     if ((flags & F_SIG) && n >= 2 && (b->path == P_ARRAY || selidx == S_INLINE)) {   /* the vector path repeats the same triples */
-        uint64_t h = vrt_mix(vrt_mix(0xC11, selidx), size);
+        uint64_t h = vrt_mix(vrt_mix(0xC11, selidx == S_SWEPT ? 0x1000 + (uint64_t)(uint32_t)selval[S_SWEPT] : (uint64_t)selidx), size);
         for (i = 0; i + 8 <= bytes; i += 8) { uint64_t w; memcpy(&w, b->in + i, 8); h = vrt_mix(h, w); }
         if (i < bytes) { uint64_t w = 0; memcpy(&w, b->in + i, bytes - i); h = vrt_mix(h, w); }
         vrt_sig(0, vrt_mix(h, n));
@@ -595,7 +608,7 @@ static void run_array(struct bench *b, int selidx, const uint32_t *probes, int n
 /* ------------------------------------------------------------------ */
 /* case table                                                           */
 /* ------------------------------------------------------------------ */
-enum { C_LARGE, C_EXH, C_TAPE, C_RANDOM };
+enum { C_LARGE, C_EXH, C_TAPE, C_RANDOM, C_SWEEP };
 enum { PAT_SORTED, PAT_REVERSED, PAT_CONSTANT, PAT_TWO_RANDOM, PAT_TWO_ALT, PAT_ORGAN, PAT_VALLEY,
        PAT_SAWTOOTH, PAT_ROT1, PAT_RANDOM_TIES, NPAT };
 static const char *const patname[NPAT] = {
@@ -646,7 +659,7 @@ static void build_cases(void)
     large_big = 50000; large_quad = 4096;
     /* large first: the longest cases */
     for (pat = 0; pat < NPAT; pat++) for (s = 0; s < NSEL; s++) for (z = 0; z < NSIZES; z++) for (p = 0; p < 2; p++) {
-        if (s == S_INLINE && p == P_ARRAY) continue;
+        if ((s == S_INLINE && p == P_ARRAY) || s == S_SWEPT) continue;
         memset(&c, 0, sizeof(c));
         c.kind = C_LARGE; c.pat = pat; c.sel = s; c.sizeidx = z; c.path = p;
         add_case(c);
@@ -654,7 +667,7 @@ static void build_cases(void)
     /* exhaustive: the longest lengths alone, the rest lumped */
     for (s = 0; s < NSEL; s++) for (z = 0; z < NSIZES; z++) for (p = 0; p < 2; p++) {
         int rot = size_in_rotation(z);
-        if (s == S_INLINE && p == P_ARRAY) continue;
+        if ((s == S_INLINE && p == P_ARRAY) || s == S_SWEPT) continue;
         memset(&c, 0, sizeof(c));
         c.kind = C_EXH; c.sel = s; c.sizeidx = z; c.path = p;
         if (vrt_thorough) {
@@ -695,6 +708,12 @@ static void build_cases(void)
     for (n = 0; n < nrandom; n++) {
         memset(&c, 0, sizeof(c));
         c.kind = C_RANDOM; c.ridx = n;
+        add_case(c);
+    }
+    /* selector sweep: 16 selector values per case */
+    for (n = 0; n < (NSWEEP + 15) / 16; n++) {
+        memset(&c, 0, sizeof(c));
+        c.kind = C_SWEEP; c.ridx = n;
         add_case(c);
     }
 }
@@ -922,6 +941,7 @@ static void run_random(const struct cdef *c, uint64_t idx)
         int np, i;
         size_t j;
         if (sel == S_INLINE) path = P_VECTOR;
+        if (sel == S_SWEPT) selval[S_SWEPT] = vrt_chance(&g, 1, 2) ? sweep_value(vrt_below(&g, NSWEEP)) : (long)(int32_t)vrt_next(&g);
         bench_open(&b, n, SIZES[z], path, vrt_below(&g, 4));
         keys = vrt_alloc((n + 1) * sizeof(*keys));
         switch (vrt_below(&g, 5)) {
@@ -951,6 +971,48 @@ static void run_random(const struct cdef *c, uint64_t idx)
 }
 
 /* ------------------------------------------------------------------ */
+/* selector sweep: "any out-of-range value"                              */
+/* ------------------------------------------------------------------ */
+static void run_sweep(const struct cdef *c, uint64_t idx)
+{
+    static const size_t NS[] = { 0, 1, 2, 3, 7, 20, 64 };
+    vrt_rng g;
+    uint32_t v;
+    vrt_rng_seed(&g, vrt_seed, 0xC11C000 + c->ridx);
+    vrt_case_note("selector sweep #%u: selector values %ld .. %ld, both paths", c->ridx, sweep_value(c->ridx * 16),
+                  sweep_value(c->ridx * 16 + 15 < NSWEEP ? c->ridx * 16 + 15 : NSWEEP - 1));
+    for (v = c->ridx * 16; v < c->ridx * 16 + 16 && v < NSWEEP; v++) {
+        int path, k;
+        selval[S_SWEPT] = sweep_value(v);
+        for (path = 0; path < 2; path++) for (k = 0; k < (int)(sizeof(NS) / sizeof(NS[0])); k++) {
+            struct bench b;
+            size_t n = NS[k], j;
+            int z = (int)((v + (uint32_t)k) % NSIZES);
+            uint32_t A = k & 1 ? 3 : (uint32_t)n + 1, pr[MAXPROBES], *keys;
+            int np;
+            bench_open(&b, n, SIZES[z], path, (size_t)(k % 3));
+            keys = vrt_alloc((n + 1) * sizeof(*keys));
+            for (j = 0; j < n; j++) {
+                keys[j] = 2 * vrt_below(&g, A) + 2;
+                put_rec(b.in + j * SIZES[z], SIZES[z], keys[j], (uint32_t)j);
+            }
+            np = large_probes(&b, keys, &g, pr);
+            tape_n = 0;
+            vrt_rng_seed(&rand_rng, vrt_seed, vrt_mix(idx, v * 16 + (uint32_t)k));
+            X.style = (int)(v & 1);
+            run_array(&b, S_SWEPT, pr, np, F_SEARCH | F_SIG, 0xB000 + A, (uint64_t)(selval[S_SWEPT] & 0xffff));
+            vrt_free(keys);
+            bench_close(&b);
+            vrt_ctr[size_ctr[z]]++;
+            VRT_COUNT("arrays.selector-sweep");
+        }
+        VRT_COUNT("sort.selector-values-swept");
+        if (selval[S_SWEPT] < 0) VRT_COUNT("sort.selector-values-swept.negative");
+        if (selval[S_SWEPT] > CSTL_SORT_ALGORITHM_HEAP) VRT_COUNT("sort.selector-values-swept.above-last-named");
+    }
+}
+
+/* ------------------------------------------------------------------ */
 static uint64_t ncases(void)
 {
     build_cases();
@@ -964,6 +1026,7 @@ static void run_case(uint64_t idx)
     case C_LARGE:  run_large(c, idx); break;
     case C_EXH:    run_exh(c, idx); break;
     case C_TAPE:   run_tape(c, idx); break;
+    case C_SWEEP:  run_sweep(c, idx); break;
     default:       run_random(c, idx); break;
     }
     VRT_COUNT_N("rand.draws.from-tape", draws_tape - t0);
@@ -985,7 +1048,8 @@ static void winit(void)
 static const char *const required[] = {
     "sort.selector.quick", "sort.selector.quick_r", "sort.selector.quick_m", "sort.selector.heap",
     "sort.selector.default", "sort.selector.oor99", "sort.selector.oor-3", "sort.selector.oor2897234",
-    "sort.selector.inline-default",
+    "sort.selector.inline-default", "sort.selector.swept", "sort.selector-values-swept",
+    "sort.selector-values-swept.negative", "sort.selector-values-swept.above-last-named",
     "arrays.element-size.01", "arrays.element-size.02", "arrays.element-size.04", "arrays.element-size.08",
     "arrays.element-size.03", "arrays.element-size.05", "arrays.element-size.16", "arrays.element-size.24",
     "arrays.exhaustive.array-path", "arrays.exhaustive.vector-path", "arrays.large", "arrays.random",
